@@ -317,23 +317,44 @@ Proof.
   lra.
 Qed.
 
+(* a let-bound value is appended: old variables keep their slots, the new one is the last *)
+Lemma nth_push_new en v : nth (length (vars en)) (vars (push en v)) 0 = v.
+Proof. unfold push; cbn [vars]. now rewrite nth_middle. Qed.
+Lemma nth_push_old en v n : (n < length (vars en))%nat -> nth n (vars (push en v)) 0 = nth n (vars en) 0.
+Proof. intros H. unfold push; cbn [vars]. now rewrite app_nth1. Qed.
+Lemma ev_var_old en v n : (n < length (vars en))%nat -> ev (push en v) (Var n) = nth n (vars en) 0.
+Proof. intros H. rewrite eval_Var. now apply nth_push_old. Qed.
+Lemma ev_Var_R en n : ev en (Var n) = nth n (vars en) 0.
+Proof. reflexivity. Qed.
+Lemma ev_var_new en v : ev (push en v) (Var (length (vars en))) = v.
+Proof. rewrite eval_Var. apply nth_push_new. Qed.
+Lemma par_push {A} (en : env A) v p : par (push en v) p = par en p.
+Proof. reflexivity. Qed.
+Lemma len_push {A} (en : env A) v : length (vars (push en v)) = S (length (vars en)).
+Proof. unfold push; cbn [vars]. rewrite app_length. cbn. lia. Qed.
+
 (* ---- tanh.py ---- *)
-Lemma tanh_log_grad_safe en x : Safe en x -> Safe en (tanh_log_grad_t x).
+Lemma tanh_log_grad_safe en x : Safe en x -> Safe en (tanh_log_grad_t (length (vars en)) x).
 Proof. intros H. unfold tanh_log_grad_t. cbn [Safe]. evR. repeat split; auto; lra. Qed.
+Lemma tanh_log_grad_safe_S en v x : Safe (push en v) x -> Safe (push en v) (tanh_log_grad_t (S (length (vars en))) x).
+Proof. intros H. rewrite <- (len_push en v). now apply tanh_log_grad_safe. Qed.
 
 Lemma tanh_fwd_safe en x : Safe en x -> Safe en (tanh_fwd_t x).
 Proof. intros H. exact H. Qed.
 Lemma tanh_inv_safe_inside en y : Safe en y -> -1 < ev en y < 1 -> Safe en (tanh_inv_t y).
 Proof. intros H1 H2. unfold tanh_inv_t. cbn [Safe]. auto. Qed.
-Lemma tanh_ld_inv_safe_inside en y : Safe en y -> -1 < ev en y < 1 -> Safe en (tanh_ld_inv_t y).
-Proof. intros H1 H2. unfold tanh_ld_inv_t. cbn [Safe]. apply tanh_log_grad_safe. cbn [Safe]. auto. Qed.
+Lemma tanh_ld_inv_safe_inside en y : Safe en y -> -1 < ev en y < 1 -> Safe en (tanh_ld_inv_t (length (vars en)) y).
+Proof.
+  intros H1 H2. unfold tanh_ld_inv_t, tanh_ld_inv_of_t. cbn [Safe]. split; [auto|].
+  apply tanh_log_grad_safe_S. exact I.
+Qed.
 
 Lemma leaky_fwd_safe en m g ic x :
   Safe en m -> Safe en g -> Safe en ic -> Safe en x -> Safe en (leaky_fwd_t m g ic x).
 Proof. intros. unfold leaky_fwd_t, CGe. cbn [Safe CSafe]. tauto. Qed.
 
 Lemma leaky_ld_fwd_safe en m g x :
-  Safe en m -> Safe en g -> Safe en x -> 0 < ev en g -> Safe en (leaky_ld_fwd_t m g x).
+  Safe en m -> Safe en g -> Safe en x -> 0 < ev en g -> Safe en (leaky_ld_fwd_t (length (vars en)) m g x).
 Proof.
   intros Hm Hg Hx Hpos. unfold leaky_ld_fwd_t, CGe. cbn [Safe CSafe].
   pose proof (tanh_log_grad_safe en x Hx). tauto.
@@ -353,12 +374,19 @@ Proof.
   pose proof (y_robust_inside (ev en m) (ev en y)). tauto.
 Qed.
 
-Lemma leaky_ld_inv_safe en m g ic y :
-  Safe en m -> Safe en g -> Safe en ic -> Safe en y -> 0 < ev en g -> Safe en (leaky_ld_inv_t m g ic y).
+(* the log-det of inverse_and_log_det, given the bound inverse value (slot [length (vars en)]) *)
+Lemma leaky_ld_inv_of_safe en v im ig iy : (ig < length (vars en))%nat -> 0 < nth ig (vars en) 0 ->
+  Safe (push en v) (leaky_ld_inv_of_t (S (length (vars en))) (Var im) (Var ig) (Var iy) (Var (length (vars en)))).
 Proof.
-  intros Hm Hg Hic Hy Hpos. unfold leaky_ld_inv_t, CGe. cbn [Safe CSafe].
-  assert (Hi : Safe en (leaky_inv_t m g ic y)) by (apply leaky_inv_safe; auto; lra).
-  pose proof (tanh_log_grad_safe en _ Hi). tauto.
+  intros Hig Hpos. unfold leaky_ld_inv_of_t, CGe. cbn [Safe CSafe]. rewrite ev_var_old by assumption.
+  pose proof (tanh_log_grad_safe_S en v (Var (length (vars en))) I). tauto.
+Qed.
+Lemma leaky_ld_inv_safe en im ig iic iy : (ig < length (vars en))%nat -> 0 < nth ig (vars en) 0 ->
+  Safe en (leaky_ld_inv_t (length (vars en)) (Var im) (Var ig) (Var iic) (Var iy)).
+Proof.
+  intros Hig Hpos. unfold leaky_ld_inv_t. cbn [Safe]. split.
+  - apply leaky_inv_safe; try exact I. rewrite ev_Var_R. apply Rgt_not_eq. lra.
+  - now apply leaky_ld_inv_of_safe.
 Qed.
 
 (* ---- softplus.py, exp.py, affine.py ---- *)
@@ -372,13 +400,13 @@ Lemma softplus_inv_safe en y : Safe en y -> 0 < ev en y -> Safe en (softplus_inv
 Proof.
   intros H Hy. unfold softplus_inv_t. cbn [Safe]. evR. pose proof (softplus_inv_arg_pos _ Hy). tauto.
 Qed.
-Lemma softplus_ld_inv_safe en y : Safe en y -> 0 < ev en y -> Safe en (softplus_ld_inv_t y).
-Proof. intros H Hy. unfold softplus_ld_inv_t. cbn [Safe]. now apply softplus_inv_safe. Qed.
+Lemma softplus_ld_inv_safe en y : Safe en y -> 0 < ev en y -> Safe en (softplus_ld_inv_t (length (vars en)) y).
+Proof. intros H Hy. unfold softplus_ld_inv_t. cbn [Safe]. split; [now apply softplus_inv_safe|exact I]. Qed.
 Lemma exp_fwd_safe en x : Safe en x -> Safe en (exp_fwd_t x).
 Proof. intros H; exact H. Qed.
 Lemma exp_inv_safe en y : Safe en y -> 0 < ev en y -> Safe en (exp_inv_t y).
 Proof. intros H Hy. unfold exp_inv_t. cbn [Safe]. auto. Qed.
-Lemma exp_ld_inv_safe en y : Safe en y -> 0 < ev en y -> Safe en (exp_ld_inv_t y).
+Lemma exp_ld_inv_safe en y : Safe en y -> 0 < ev en y -> Safe en (exp_ld_inv_t (length (vars en)) y).
 Proof. intros H Hy. unfold exp_ld_inv_t. cbn [Safe]. auto. Qed.
 Lemma affine_fwd_safe en loc scale x : Safe en loc -> Safe en scale -> Safe en x -> Safe en (affine_fwd_t loc scale x).
 Proof. intros. unfold affine_fwd_t. cbn [Safe]. tauto. Qed.
@@ -557,16 +585,6 @@ Proof.
   - apply getz_dv_pos; [assumption|lia].
 Qed.
 
-Lemma ev_var_old en v n : (n < length (vars en))%nat -> ev (push en v) (Var n) = nth n (vars en) 0.
-Proof. intros H. rewrite eval_Var. unfold push; cbn [vars]. now rewrite app_nth1. Qed.
-Lemma ev_var_new en v : ev (push en v) (Var (length (vars en))) = v.
-Proof. rewrite eval_Var. unfold push; cbn [vars]. now rewrite nth_middle. Qed.
-Lemma nth_push_new en v : nth (length (vars en)) (vars (push en v)) 0 = v.
-Proof. unfold push; cbn [vars]. now rewrite nth_middle. Qed.
-Lemma nth_push_old en v n : (n < length (vars en))%nat -> nth n (vars (push en v)) 0 = nth n (vars en) 0.
-Proof. intros H. unfold push; cbn [vars]. now rewrite app_nth1. Qed.
-Lemma par_push {A} (en : env A) v p : par (push en v) p = par en p.
-Proof. reflexivity. Qed.
 Lemma ieval_bin en p e : ieval ROps en (bin_t p e) = rqs_bin ROps (par en p) (ev en e).
 Proof. reflexivity. Qed.
 Lemma isafe_bin en p e : ISafe en (bin_t p e) = Safe en e.
@@ -676,8 +694,6 @@ Lemma rqs_valid_push en v ilo ihi :
   rqs_valid (par (push en v) XP) (par (push en v) YP) (par (push en v) DV)
             (nth ilo (vars (push en v)) 0) (nth ihi (vars (push en v)) 0).
 Proof. intros H1 H2 V. rewrite !par_push, !nth_push_old by assumption. exact V. Qed.
-Lemma len_push {A} (en : env A) v : length (vars (push en v)) = S (length (vars en)).
-Proof. unfold push; cbn [vars]. rewrite app_length. cbn. lia. Qed.
 
 Lemma rqs_ld_fwd_safe en ilo ihi ix :
   (ilo < length (vars en))%nat -> (ihi < length (vars en))%nat -> (ix < length (vars en))%nat ->
@@ -689,21 +705,27 @@ Proof.
   - now apply rqs_deriv_pos.
 Qed.
 
-(* inverse_and_log_det: x = inverse(y) bound once, then -log(derivative(x)) *)
+(* inverse_and_log_det: x = inverse(y) bound once (slot [length (vars en)]), then -log(derivative(x)) *)
+Lemma rqs_ld_inv_of_safe en v ilo ihi :
+  (ilo < length (vars en))%nat -> (ihi < length (vars en))%nat ->
+  rqs_valid (par en XP) (par en YP) (par en DV) (nth ilo (vars en) 0) (nth ihi (vars en) 0) ->
+  Safe (push en v) (rqs_ld_inv_of_gt bin_t (S (length (vars en))) (Var ilo) (Var ihi) (Var (length (vars en)))).
+Proof.
+  intros Hlo Hhi V. unfold rqs_ld_inv_of_gt. cbn [Safe]. change (rqs_deriv_gt bin_t) with rqs_deriv_t.
+  rewrite <- (len_push en v).
+  assert (V' := rqs_valid_push en v ilo ihi Hlo Hhi V).
+  split.
+  - apply rqs_deriv_safe; try assumption; rewrite len_push; lia.
+  - apply rqs_deriv_pos; try assumption; rewrite len_push; lia.
+Qed.
 Lemma rqs_ld_inv_safe en ilo ihi iy :
   (ilo < length (vars en))%nat -> (ihi < length (vars en))%nat -> (iy < length (vars en))%nat ->
   rqs_valid (par en XP) (par en YP) (par en DV) (nth ilo (vars en) 0) (nth ihi (vars en) 0) ->
   Safe en (rqs_ld_inv_t (length (vars en)) (Var ilo) (Var ihi) (Var iy)).
 Proof.
   intros Hlo Hhi Hy V. unfold rqs_ld_inv_t, rqs_ld_inv_gt. cbn [Safe].
-  change (rqs_inv_gt bin_t) with rqs_inv_t. change (rqs_deriv_gt bin_t) with rqs_deriv_t.
-  split; [now apply rqs_inv_safe|].
-  set (v := ev en _). rewrite <- (len_push en v).
-  assert (V' := rqs_valid_push en v ilo ihi Hlo Hhi V).
-  assert (Hd : (length (vars en) < length (vars (push en v)))%nat) by (rewrite len_push; lia).
-  split.
-  - apply rqs_deriv_safe; try assumption; rewrite len_push; lia.
-  - apply rqs_deriv_pos; try assumption; rewrite len_push; lia.
+  change (rqs_inv_gt bin_t) with rqs_inv_t.
+  split; [now apply rqs_inv_safe | now apply rqs_ld_inv_of_safe].
 Qed.
 
 (* ====================================================================================== *)
@@ -734,38 +756,38 @@ Theorem lp_safe en l inverted normal :
   length (vars en) = nV -> leaf_ok l inverted en -> (normal = true -> nth 9 (vars en) 0 <> 0) ->
   Safe en (lp_t l inverted normal).
 Proof.
-  intros Hlen Hok Hb. unfold lp_t. cbn [Safe].
-  assert (HV : forall n, Safe en (Var n)) by (intros; exact I).
-  assert (L4 : (4 < length (vars en))%nat) by (rewrite Hlen; unfold nV; lia).
-  assert (L5 : (5 < length (vars en))%nat) by (rewrite Hlen; unfold nV; lia).
-  assert (L0 : (0 < length (vars en))%nat) by (rewrite Hlen; unfold nV; lia).
-  destruct l; unfold leaf_ok in Hok; cbn zeta in Hok; try contradiction;
-    destruct inverted; unfold fwd_t, inv_t, ld_fwd_t, ld_inv_t, vX, vM, vG, vIC, vLO, vHI, vLOC, vSCALE;
-    (split; [apply base_lp_safe; [|exact Hb]|]); rewrite <- ?Hlen.
-  - apply affine_fwd_safe; auto.
-  - apply affine_ld_safe; auto.
-  - apply affine_inv_safe; auto.
-  - cbn [Safe]. apply affine_ld_safe; auto.
-  - exact I.
-  - exact I.
-  - destruct Hok; [discriminate|]. apply exp_inv_safe; auto.
-  - destruct Hok; [discriminate|]. apply exp_ld_inv_safe; auto.
-  - exact I.
-  - exact I.
-  - destruct Hok; [discriminate|]. apply softplus_inv_safe; auto.
-  - destruct Hok; [discriminate|]. apply softplus_ld_inv_safe; auto.
-  - exact I.
-  - apply tanh_log_grad_safe; auto.
-  - destruct Hok; [discriminate|]. apply tanh_inv_safe_inside; auto.
-  - destruct Hok; [discriminate|]. apply tanh_ld_inv_safe_inside; auto.
-  - apply leaky_fwd_safe; auto.
-  - apply leaky_ld_fwd_safe; auto.
-  - apply leaky_inv_safe; auto. evR. lra.
-  - apply leaky_ld_inv_safe; auto.
-  - apply rqs_fwd_safe; auto.
-  - apply rqs_ld_fwd_safe; auto.
-  - apply rqs_inv_safe; auto.
-  - apply rqs_ld_inv_safe; auto.
+  intros Hlen Hok Hb. unfold lp_t.
+  assert (LT : forall n, (n < 10)%nat -> (n < length (vars en))%nat) by (intros; rewrite Hlen; unfold nV; lia).
+  assert (Hbe : normal = true -> ev en vBSCALE <> 0) by (intros E; unfold vBSCALE; rewrite eval_Var; auto).
+  destruct inverted.
+  - (* Invert(leaf): the point and the log-det are both computed from x *)
+    cbn [Safe]. split; [apply base_lp_safe; [|exact Hbe]|];
+      destruct l; unfold leaf_ok in Hok; cbn zeta in Hok; try contradiction;
+      unfold fwd_t, ld_fwd_t, vX, vM, vG, vIC, vLO, vHI, vLOC, vSCALE; rewrite <- ?Hlen; try exact I.
+    + apply affine_fwd_safe; exact I.
+    + apply leaky_fwd_safe; exact I.
+    + apply rqs_fwd_safe; auto 10.
+    + apply affine_ld_safe; [exact I|]. rewrite eval_Var. exact Hok.
+    + apply tanh_log_grad_safe; exact I.
+    + apply leaky_ld_fwd_safe; try exact I. rewrite eval_Var. exact Hok.
+    + apply rqs_ld_fwd_safe; auto 10.
+  - (* leaf: z = inverse(x) is bound once and feeds both the base density and the log-det *)
+    cbn [Safe]. set (v := ev en (inv_t l vX)).
+    assert (Hbe' : normal = true -> ev (push en v) vBSCALE <> 0).
+    { intros E. unfold vBSCALE. rewrite ev_var_old by (apply LT; lia). auto. }
+    split; [|split; [apply base_lp_safe; [exact I|exact Hbe']|]];
+      destruct l; unfold leaf_ok in Hok; cbn zeta in Hok; try contradiction;
+      unfold inv_t, ld_inv_of_t, vX, vM, vG, vIC, vLO, vHI, vLOC, vSCALE; rewrite <- ?Hlen; try exact I.
+    + apply affine_inv_safe; try exact I. rewrite eval_Var. exact Hok.
+    + destruct Hok; [discriminate|]. apply exp_inv_safe; [exact I|]. rewrite eval_Var. assumption.
+    + destruct Hok; [discriminate|]. apply softplus_inv_safe; [exact I|]. rewrite eval_Var. assumption.
+    + destruct Hok; [discriminate|]. apply tanh_inv_safe_inside; [exact I|]. rewrite eval_Var. assumption.
+    + apply leaky_inv_safe; try exact I. rewrite ev_Var_R. apply Rgt_not_eq. lra.
+    + apply rqs_inv_safe; auto 10.
+    + cbn [Safe]. apply affine_ld_safe; [exact I|]. rewrite ev_var_old by (apply LT; lia). exact Hok.
+    + unfold tanh_ld_inv_of_t. cbn [Safe]. apply tanh_log_grad_safe_S. exact I.
+    + apply leaky_ld_inv_of_safe; [apply LT; lia|exact Hok].
+    + apply rqs_ld_inv_of_safe; auto 10.
 Qed.
 
 (* the statement of C18 on the model: finite log_prob, finite gradient w.r.t. the input and w.r.t. EVERY
@@ -877,15 +899,15 @@ Proof. intros H. apply leaky_inv_safe; try exact I. exact H. Qed.
 Corollary leaky_fwd_safe_all m g ic x : Safe (en_of [x; m; g; ic]) (leaky_fwd_t (Var 1) (Var 2) (Var 3) (Var 0)).
 Proof. apply leaky_fwd_safe; exact I. Qed.
 Corollary leaky_ld_fwd_safe_all m g ic x : 0 < g ->
-  Safe (en_of [x; m; g; ic]) (leaky_ld_fwd_t (Var 1) (Var 2) (Var 0)).
-Proof. intros H. apply leaky_ld_fwd_safe; try exact I. exact H. Qed.
+  Safe (en_of [x; m; g; ic]) (leaky_ld_fwd_t 4 (Var 1) (Var 2) (Var 0)).
+Proof. intros H. apply (leaky_ld_fwd_safe (en_of [x; m; g; ic])); try exact I. exact H. Qed.
 Corollary leaky_ld_inv_safe_all m g ic y : 0 < g ->
-  Safe (en_of [y; m; g; ic]) (leaky_ld_inv_t (Var 1) (Var 2) (Var 3) (Var 0)).
-Proof. intros H. apply leaky_ld_inv_safe; try exact I. exact H. Qed.
+  Safe (en_of [y; m; g; ic]) (leaky_ld_inv_t 4 (Var 1) (Var 2) (Var 3) (Var 0)).
+Proof. intros H. apply (leaky_ld_inv_safe (en_of [y; m; g; ic]) 1 2 3 0); [cbn; lia|exact H]. Qed.
 Corollary softplus_inv_safe_pos y : 0 < y -> Safe (en_of [y]) (softplus_inv_t (Var 0)).
 Proof. intros H. apply softplus_inv_safe; [exact I|exact H]. Qed.
-Corollary tanh_log_grad_safe_all x : Safe (en_of [x]) (tanh_log_grad_t (Var 0)).
-Proof. apply tanh_log_grad_safe; exact I. Qed.
+Corollary tanh_log_grad_safe_all x : Safe (en_of [x]) (tanh_log_grad_t 1 (Var 0)).
+Proof. apply (tanh_log_grad_safe (en_of [x])); exact I. Qed.
 Corollary exp_inv_safe_pos y : 0 < y -> Safe (en_of [y]) (exp_inv_t (Var 0)).
 Proof. intros H. apply exp_inv_safe; [exact I|exact H]. Qed.
 Corollary affine_inv_safe_all loc scale y : scale <> 0 ->
@@ -937,24 +959,25 @@ Qed.
 Lemma leaky_safe_all m g ic x : 0 < g ->
   Safe (en_of [x; m; g; ic]) (leaky_inv_t (Var 1) (Var 2) (Var 3) (Var 0)) /\
   Safe (en_of [x; m; g; ic]) (leaky_fwd_t (Var 1) (Var 2) (Var 3) (Var 0)) /\
-  Safe (en_of [x; m; g; ic]) (leaky_ld_fwd_t (Var 1) (Var 2) (Var 0)) /\
-  Safe (en_of [x; m; g; ic]) (leaky_ld_inv_t (Var 1) (Var 2) (Var 3) (Var 0)).
+  Safe (en_of [x; m; g; ic]) (leaky_ld_fwd_t 4 (Var 1) (Var 2) (Var 0)) /\
+  Safe (en_of [x; m; g; ic]) (leaky_ld_inv_t 4 (Var 1) (Var 2) (Var 3) (Var 0)).
 Proof.
   intros H. split; [|split; [|split]];
     [apply leaky_inv_safe_all; lra | apply leaky_fwd_safe_all | now apply leaky_ld_fwd_safe_all | now apply leaky_ld_inv_safe_all].
 Qed.
 Lemma elementary_safe_all loc scale y :
-  Safe (en_of [y]) (tanh_log_grad_t (Var 0)) /\
-  (0 < y -> Safe (en_of [y]) (softplus_inv_t (Var 0)) /\ Safe (en_of [y]) (softplus_ld_inv_t (Var 0)) /\
-            Safe (en_of [y]) (exp_inv_t (Var 0)) /\ Safe (en_of [y]) (exp_ld_inv_t (Var 0))) /\
-  (-1 < y < 1 -> Safe (en_of [y]) (tanh_inv_t (Var 0)) /\ Safe (en_of [y]) (tanh_ld_inv_t (Var 0))) /\
+  Safe (en_of [y]) (tanh_log_grad_t 1 (Var 0)) /\
+  (0 < y -> Safe (en_of [y]) (softplus_inv_t (Var 0)) /\ Safe (en_of [y]) (softplus_ld_inv_t 1 (Var 0)) /\
+            Safe (en_of [y]) (exp_inv_t (Var 0)) /\ Safe (en_of [y]) (exp_ld_inv_t 1 (Var 0))) /\
+  (-1 < y < 1 -> Safe (en_of [y]) (tanh_inv_t (Var 0)) /\ Safe (en_of [y]) (tanh_ld_inv_t 1 (Var 0))) /\
   (scale <> 0 -> Safe (en_of [y; loc; scale]) (affine_inv_t (Var 1) (Var 2) (Var 0)) /\
                  Safe (en_of [y; loc; scale]) (affine_ld_t (Var 2))).
 Proof.
   split; [apply tanh_log_grad_safe_all|]. split; [|split].
   - intros H. split; [|split; [|split]];
-      [apply softplus_inv_safe | apply softplus_ld_inv_safe | apply exp_inv_safe | apply exp_ld_inv_safe]; try exact I; exact H.
-  - intros H. split; [apply tanh_inv_safe_inside | apply tanh_ld_inv_safe_inside]; try exact I; exact H.
+      [apply softplus_inv_safe | apply (softplus_ld_inv_safe (en_of [y])) | apply exp_inv_safe | apply (exp_ld_inv_safe (en_of [y]))];
+      try exact I; exact H.
+  - intros H. split; [apply tanh_inv_safe_inside | apply (tanh_ld_inv_safe_inside (en_of [y]))]; try exact I; exact H.
   - apply affine_inv_safe_all.
 Qed.
 Lemma rqs_safe_all xp yp dv lo hi x : rqs_valid xp yp dv lo hi ->
